@@ -321,6 +321,11 @@ _ITER_T = r'(.+)'
 
 @summary(r'^core::slice::<impl \[.*\]>::iter(_mut)?$|^<&(mut )?\[.*\] as IntoIterator>::into_iter$|^<&(mut )?Vec<.*> as IntoIterator>::into_iter$|^<\[.*\] as IntoParallelRefIterator<.*>>::par_iter$|^<Vec<.*> as IntoParallelRefIterator<.*>>::par_iter$|^<&\[.*\] as IntoParallelIterator>::into_par_iter$|^<&Vec<.*> as IntoParallelIterator>::into_par_iter$')
 def _slice_iter(it, st, args, ctx):
+    v = args[0]
+    while isinstance(v, Ptr):
+        v = it.load(st, v)
+    if isinstance(v, Opaque) and v.kind == 'CovOps':
+        return Opaque('CovOpsIter', v.data)
     return iter_from_seq(it, st, args[0])
 
 
@@ -497,6 +502,83 @@ def _iter_find(it, st, args, ctx):
                     s5 = s4.fork()
                     s5.assume(c)
                     outs.append((s5, Ret(mk_some(items[i]))))
+                if not z3.is_true(c) and it.feasible(s4, z3.Not(c)):
+                    s4.assume(z3.Not(c))
+                    work.append((s4, i + 1))
+    return outs
+
+
+def _opaque_ops_iter(it, st, v):
+    while isinstance(v, Ptr):
+        v = it.load(st, v)
+    return v if isinstance(v, Opaque) and v.kind == 'CovOpsIter' else None
+
+
+OPS_PRED = z3.Function('ops_predicate', z3.BitVecSort(256), z3.IntSort(), z3.BoolSort())
+_OPS_PRED_IDS = {}
+
+
+@summary(r'^<' + _ITER_T + r' as (Iterator|ParallelIterator)>::(any|all)::<')
+def _iter_any_all(it, st, args, ctx):
+    is_any = '::any::<' in ctx.callee
+    ops = _opaque_ops_iter(it, st, args[0])
+    if ops is not None:
+        # a pure predicate over the decoded instructions of a covenant is a function of the covenant's bytes: one
+        # uninterpreted predicate per (closure, covenant)
+        key = ctx.callee.split('::<', 1)[-1]
+        pid = _OPS_PRED_IDS.setdefault(key, len(_OPS_PRED_IDS))
+        return OPS_PRED(ops.data[0], z3.IntVal(pid))
+    m = iter_model(it, st, args[0])
+    outs = []
+    for s2, items in drain(it, st, m, ctx):
+        if isinstance(items, Panic):
+            outs.append((s2, items))
+            continue
+        work = [(s2, 0)]
+        while work:
+            s3, i = work.pop()
+            if i == len(items):
+                outs.append((s3, Ret(z3.BoolVal(not is_any))))
+                continue
+            for s4, r in it.call_closure(s3, args[1], [items[i]], ctx):
+                if isinstance(r, Panic):
+                    outs.append((s4, r))
+                    continue
+                c = simp(to_bool(r.v))
+                stop = c if is_any else simp(z3.Not(c))  # any stops at the first true, all at the first false
+                if not z3.is_false(stop) and it.feasible(s4, stop):
+                    s5 = s4.fork()
+                    s5.assume(stop)
+                    outs.append((s5, Ret(z3.BoolVal(is_any))))
+                if not z3.is_true(stop) and it.feasible(s4, z3.Not(stop)):
+                    s4.assume(z3.Not(stop))
+                    work.append((s4, i + 1))
+    return outs
+
+
+@summary(r'^<' + _ITER_T + r' as Iterator>::position::<')
+def _iter_position(it, st, args, ctx):
+    m = iter_model(it, st, args[0])
+    outs = []
+    for s2, items in drain(it, st, m, ctx):
+        if isinstance(items, Panic):
+            outs.append((s2, items))
+            continue
+        work = [(s2, 0)]
+        while work:
+            s3, i = work.pop()
+            if i == len(items):
+                outs.append((s3, Ret(mk_none())))
+                continue
+            for s4, r in it.call_closure(s3, args[1], [items[i]], ctx):
+                if isinstance(r, Panic):
+                    outs.append((s4, r))
+                    continue
+                c = simp(to_bool(r.v))
+                if not z3.is_false(c) and it.feasible(s4, c):
+                    s5 = s4.fork()
+                    s5.assume(c)
+                    outs.append((s5, Ret(mk_some(bv(i, 64)))))
                 if not z3.is_true(c) and it.feasible(s4, z3.Not(c)):
                     s4.assume(z3.Not(c))
                     work.append((s4, i + 1))
